@@ -9,7 +9,7 @@ WT=$(mktemp -d /tmp/mut_XXXXXX)
 git -C /repo worktree add -q --detach "$WT" HEAD
 cleanup() { git -C /repo worktree remove --force "$WT" 2>/dev/null; rm -rf "$WT"; }
 trap cleanup EXIT
-if [ -n "$REV" ]; then (cd "$WT" && git revert -n "$REV" >/dev/null); else (cd "$WT" && git apply "$P"); fi
+if [ -n "$REV" ]; then (cd "$WT" && git revert -n "$REV" >/dev/null); else (cd "$WT" && (git apply "$P" 2>/dev/null || git apply -3 "$P")); fi
 cd /verif
 set +e
 VERIF_REPO="$WT" ./check "$ID" "$@"
